@@ -71,6 +71,9 @@ JudgeRecord(R) ==
         << <<"HarnessAppliesLikeApplyEdits", wf = R.applied /\ (wf => JoinLines(applied) = R.applied_text)>>,
            <<"EditIsATranscribedShape", shapes # {}>>,
            <<"NamedClassIsTheUnresolvedOne", R.named_cls = cls /\ targets \subseteq ToSet(R.exporters)>>,
+           <<"SpecExpectationAgreesWithVerdict",
+              (wf /\ R.applied /\ R.syn_before = <<>>) =>
+                 ((\E m \in targets : Good(T, es, m, cls)) <=> (Select(verdict) = <<>>))>>,
            <<"ReaderAgreesBefore", R.syn_before = <<>> => (hB.ok /\ hB.table = impB)>>,
            <<"ReaderAgreesAfter", (R.applied /\ R.syn_before = <<>>) =>
                                      ((hA.ok <=> R.syn_after = <<>>) /\ (hA.ok => hA.table = impA))>> >>
